@@ -54,7 +54,7 @@ def install(spec: Spec):
         g['ReentrantLock'] = ('cls', 'ReentrantLock')
         g['TypeAdapter'] = ('cls', 'TypeAdapter')
         g['UTC'] = ('const', V(PY, py=('UTC',)))
-        for fn in ('get_handler_id', 'get_handler_name', '_get_global_lock', '_log_pretty_path', '_log_filtered_traceback'):
+        for fn in ('get_handler_id', 'get_handler_name', '_get_global_lock', '_log_pretty_path', '_log_filtered_traceback', '_current_task_is_being_cancelled'):
             g[fn] = ('fn', 'bubus.' + fn)
     g = spec.globals['*']
     g['EventBus.all_instances'] = ('weakset', parse_ty('EventBus'))
